@@ -209,6 +209,7 @@ PROPS["C05"] = dict(
 
 PROPS["C11"] = dict(
     module="RaptorModel.Props.C11",
+    extra_theorem_modules=["RaptorModel.Props.C11Par"],
     diff_is_violation=True,   # the model is the method's definition: a result that differs from it is the failing input
     harnesses=["h_c11"],
     configs=seqpar_configs("h_c11", [1, 2, 3, 4, 7], list(range(1, 17))),
